@@ -117,8 +117,12 @@ def part_a(case: dict, g: dict, rng) -> tuple[list[dict], dict, bool]:  # noqa: 
         if pi == 1:
             m2.update_parameters({p: round(rng.uniform(0.3, 2.0), 3) for p in base if p not in ("nh", "tot")})
         pvals = {k: float(v) for k, v in m2.get_args().items() if k in m2.get_parameter_names()}
-        for _ in range(3):
+        for i_st in range(5):
             st = {v: round(rng.uniform(0.3, 2.5), 3) for v in names}
+            lattice = i_st >= 3
+            if lattice:
+                # lattice states: equality tests between quantities hold here; equations only (no derivative exists there)
+                st = {v: rng.choice([0.5, 1.0, 1.5, 2.0]) for v in names}
             t = round(rng.uniform(0.0, 3.0), 2)
             num = list(m2(t, [st[v] for v in names]))
             got, err = eval_sym(sm.eqs, sm, pvals | st, t)
@@ -132,7 +136,7 @@ def part_a(case: dict, g: dict, rng) -> tuple[list[dict], dict, bool]:  # noqa: 
                 viols.append(core.viol(f"symbolic equations differ from the numeric derivatives ({setting}) [{label}]", None, variables=bad, symbolic=got, numeric=num,
                                        state=st, time=t, parameters=pvals, eqs=[str(e)[:200] for e in sm.eqs], **ctx))
                 return viols, counters, True
-            if jac is not None:
+            if jac is not None and not lattice and not ("equality_gate" in feats and len({round(float(x), 9) for x in st.values()} | {1.0}) <= len(st)):
                 jv, err = eval_sym(list(jac), sm, pvals | st, t)
                 if jv is None:
                     viols.append(core.viol("symbolic Jacobian cannot be evaluated", None, problem=err, **ctx))
@@ -275,7 +279,7 @@ def run_case(case: dict) -> dict:
     part = case["part"]
     counters: dict[str, int] = {f"part:{part}": 1}
     if part in ("A", "lib"):
-        g = gen(rng, conditionals=rng.random() < 0.5, module_state=0.25, equality_gates=False) if part == "A" else lib_model(rng)
+        g = gen(rng, conditionals=rng.random() < 0.5, module_state=0.25) if part == "A" else lib_model(rng)
         if "module_state" in g["features"]:
             # one conversion was made in this process before the module-level values the rate laws read are re-bound
             with module_state_rebound(rng, lambda: to_symbolic_model(rm.build(g["spec"]))):
